@@ -358,6 +358,12 @@ func c17RunScript(r *verifkit.Run, sc c17Script, desc string, pre bool, shuffle 
 				if s.bodyDone < target || s.exited+s.waiting != s.bodyDone {
 					ok = false
 				}
+				// a Tick call that has passed the strategy's counter section
+				// but has not reached the retransmit function yet is invisible
+				// in the counters above: every call in flight must be parked
+				if pre && atomic.LoadInt64(&g.inFlight) != int64(s.waiting) {
+					ok = false
+				}
 			}
 			if ok {
 				if extraLeft == 0 {
@@ -424,6 +430,13 @@ func c17RunScript(r *verifkit.Run, sc c17Script, desc string, pre bool, shuffle 
 			if out.lostTicks && s.bodyDone < lo {
 				r.Violation(g.kind+":tick-never-reached-the-strategy",
 					fmt.Sprintf("%d ticks were dispatched to this live registration but its strategy was consulted only %d times, and every goroutine of the process is parked", lo, s.bodyDone), desc, wit)
+				continue
+			}
+			if !pre {
+				// race pass: calls in flight cannot be told from finished
+				// ones without adding synchronisation of the monitor's own;
+				// the counting rules belong to the oracle pass, the verdict
+				// here is the detector's (and the quiescence rule above)
 				continue
 			}
 			if s.bodyDone > hi {
